@@ -1,5 +1,6 @@
 import FordModel.Proto
 import FordModel.Settings
+import FordModel.SettingsSource
 namespace Ford
 open Proto Settings
 
@@ -124,6 +125,62 @@ def eff (T : Tables) (args : List Str) : Option (List Str) :=
     | _ => none
   | _ => none
 
+/-- take `n` directory entries `dir state nKw (k v)*` -/
+def takeDirs : Nat → List Str → Option (FileSys × List Str)
+  | 0, fs => some ([], fs)
+  | n + 1, d :: st :: nKw :: rest =>
+    match takeKvs (natOf nKw) rest with
+    | some (kw, r) =>
+      let m : Manifest :=
+        if st == "ford".toList then .ford kw else if st == "invalid".toList then .invalid
+        else if st == "noExtra".toList then .noExtra else if st == "noFord".toList then .noFord else .absent
+      match takeDirs n r with
+      | some (fsys, r') => some ((d, m) :: fsys, r')
+      | none => none
+    | none => none
+  | _ + 1, _ => none
+
+/-- take `n` file entries `name nLines line*` -/
+def takeFiles : Nat → List Str → Option (List (Str × List Str) × List Str)
+  | 0, fs => some ([], fs)
+  | n + 1, name :: nL :: rest =>
+    match takeN (natOf nL) rest with
+    | some (ls, r) =>
+      match takeFiles n r with
+      | some (fl, r') => some ((name, ls) :: fl, r')
+      | none => none
+    | none => none
+  | _ + 1, _ => none
+
+def srcErrOut : SrcErr → List Str
+  | .tomlDecode => ["err".toList, "tomlDecode".toList, []]
+  | .settings e => errOut e
+
+/-- c15.effl cwd addr pkg incRepaired nDirs (dir state nKw (k v)*)* nFiles (name nLines line*)* nMd line* hasCfg nCfg (k v)* nCli (k v)* -/
+def effl (T : Tables) (args : List Str) : Option (List Str) :=
+  match args with
+  | cwd :: addr :: pkg :: incRep :: nDirs :: r0 =>
+    match takeDirs (natOf nDirs) r0 with
+    | some (fsys, nFiles :: r1) =>
+     match takeFiles (natOf nFiles) r1 with
+     | some (files, nMd :: r2) =>
+      match takeN (natOf nMd) r2 with
+      | some (md, hasCfg :: nCfg :: r3) =>
+        match takeKvs (natOf nCfg) r3 with
+        | some (cfg, nCli :: r4) =>
+          match takeKvs (natOf nCli) r4 with
+          | some (cli, []) =>
+            let c := if hasCfg == ['1'] then some cfg else none
+            match effectiveAt T Generated.tomlLookups fsys cwd addr pkg md c cli files (incRep == ['1']) with
+            | .ok (s, w) => some (outSettings s w)
+            | .error e => some (srcErrOut e)
+          | _ => none
+        | _ => none
+      | _ => none
+     | _ => none
+    | _ => none
+  | _ => none
+
 end C15Proto
 
 open C15Proto in
@@ -137,6 +194,25 @@ def dispatchC15 : List Str → Option (List Str)
       match eff generatedTablesModsRepaired args with
       | some r => some r
       | none => some ["bad-request".toList]
+    else if cmd == "c15.effl".toList then   -- round 6: with the file-system layout (source selection)
+      match effl generatedTables args with
+      | some r => some r
+      | none => some ["bad-request".toList]
+    else if cmd == "c15.efflr".toList then
+      match effl generatedTablesModsRepaired args with
+      | some r => some r
+      | none => some ["bad-request".toList]
+    else if cmd == "c15.incline".toList then
+      match args with
+      | [l] => some (match incParse l with
+          | .plain => ["plain".toList]
+          | .inc a b c => ["inc".toList, a, b, c]
+          | .other => ["other".toList])
+      | _ => some ["bad-request".toList]
+    else if cmd == "c15.dirname".toList then
+      match args with
+      | [cwd, addr] => some ["ok".toList, dirname addr, projectDirOf cwd addr]
+      | _ => some ["bad-request".toList]
     else if cmd == "c15.meta".toList then
       let (mt, rest) := metaPre args
       some ("ok".toList :: showNat mt.length :: (mt.map (fun kv => kv.1 ++ '=' :: joinSep us kv.2) ++ rest))
